@@ -58,6 +58,9 @@ def _config(cfg):
                 store.store_metadata(pid, paths[doc], fmt)
             if pid != "gone":
                 want[lay.meta_path(pid, NS if fmt is None else fmt)] = DOCS[doc]
+    # a non-ASCII pid that is the only reference of its content, stored and deleted again: nothing may remain
+    store.store_object("gone-\u6e2c\u8a66", paths["d2"])
+    store.delete_object("gone-\u6e2c\u8a66")
     store.delete_object("gone")
     store.delete_metadata(PIDS[0], "b")
     del want[lay.meta_path(PIDS[0], "b")]
